@@ -1176,6 +1176,17 @@ def cone_lifecycle(ctx):
                         tol_ = max(tol, 1e-12 * float(np.abs(np.asarray(val[0] if isinstance(val, (tuple, list)) else val)).max()))
                     except Exception:
                         pass
+                if op == 'lb' and not same_result(val, ref, tol_):
+                    # ARPACK starts from a random vector: on an ill-conditioned pencil (e.g. the indefinite cone stiffness of
+                    # fsdt_donnell_bcn, finding C16-fsdt-donnell-bcn-cone-not-psd) two runs of the SAME fresh shell already differ
+                    # by ~1e-6.  Calibrate on the run-to-run spread of the fresh reference itself (a history dependence is O(1)).
+                    fresh = [r_[0][1] for r_ in (cone_sequence(CD, ['lb']) for _ in range(3)) if r_ and r_[0][0] == 'ok']
+                    fresh = [np.asarray(f_) for f_ in fresh if np.asarray(f_).shape == np.asarray(val).shape]
+                    if len(fresh) >= 2:
+                        sc = max(float(np.abs(fresh[0]).max()), 1e-300)
+                        spread = max(float(np.abs(a_ - b_).max()) for a_ in fresh for b_ in fresh) / sc
+                        tol_ = max(tol_, 20. * spread)
+                        dist['lb_noise_recalibrations'] = dist.get('lb_noise_recalibrations', 0) + 1
                 if not same_result(val, ref, tol_):
                     ident = 'C20-conecyl-lb-default-load-order' if m[1] != reftok else None
                     note = ' [the model predicts it: axial load %s vs %s]' % (m[1], reftok) if ident else ''
